@@ -12,7 +12,7 @@ A_NOTE = ("Trusted: std::sync::mpsc and the 30-line native transport (the simula
 CHECKS = {
     "C08": dict(engine="enum", category="exploration", design="5.1, 7/C08",
                 technique="exhaustive product of literal values x static-type forms x pattern types x test forms, each its own program, judged by a host-side structural membership model in three execution configurations",
-                text="23 values x 3 ways the value reaches the test (exact type / widened by never-taken alternatives) x 26 pattern types (unions, partials, named/unnamed tuples, recursive list alias, function type) x 6 test forms (type pattern, as-pattern, typed tuple field, partial field, block branch, function dispatch) = 10764 programs, plus 728 late-value cases (the test installed by an earlier REPL line / merge, the value - incl. function and builtin values against function types - built by a later one; verdict equal to the same lines as one program): accept => the value inhabits the type; value at its most specific type inhabiting the type => accept; verdict identical directly, tree-shaken, and after real merges into an environment that already holds independently compiled pool programs (every table index shifted); plus 30 typed-receive programs (a typed receive takes the earliest message of its type).",
+                text="23 values x 3 ways the value reaches the test (exact type / widened by never-taken alternatives) x 26 pattern types (unions, partials, named/unnamed tuples, recursive list alias, function type) x 6 test forms (type pattern, as-pattern, typed tuple field, partial field, block branch, function dispatch) = 10764 programs, plus 28 process-value programs (a process reaching the test through a union-typed variable, as compiled vs tree-shaken), builtin values and a field-refuting union pattern type in the main matrix, and 728+ late-value cases (the test installed by an earlier REPL line / merge, the value - incl. function and builtin values against function types - built by a later one; verdict equal to the same lines as one program): accept => the value inhabits the type; value at its most specific type inhabiting the type => accept; verdict identical directly, tree-shaken, and after real merges into an environment that already holds independently compiled pool programs (every table index shifted); plus 30 typed-receive programs (a typed receive takes the earliest message of its type).",
                 note="Host membership model covers the listed values/types only; function types 'unknown'; resource types covered by C14 scenarios."),
     "C19": dict(engine="enum", category="model_checking", design="7/C19",
                 technique="explicit-state breadth-first search over operation histories of the real %dict (states are real dict values in real REPL sessions) against a BTreeMap reference",
@@ -40,7 +40,7 @@ CHECKS = {
                 note="sqrt only where trial division finishes within 4000 steps; abstains where the module documents nothing (numer/denom of a surd, clamp with lo > hi)."),
     "C11": dict(engine="enum", category="model_checking", design="7/C11",
                 technique="explicit-state search over REPL line histories (states are real sessions of the real Repl + Environment + workers), each history compared with the one-piece program",
-                text="All histories of <= 4 (thorough 5) lines over a 19-line alphabet chosen to interact (bindings, shadowing, destructuring, type aliases incl. one named like a variable, closures over earlier bindings, previous-result flow, heap binaries and rebinding, imports incl. a compiler-rejected importing line, parse/compile-rejected lines, nil lines) plus every cut of 30 corpus programs into lines: per-line value and every bound variable equal the one-piece program; a rejected line leaves the session unchanged (state, and line by line: every later line - accepted or rejected - behaves as in the history without the rejected lines); heap accounting holds after every line.",
+                text="All histories of <= 3 (thorough 4) lines over a 23-line alphabet and of <= 4 (thorough 5) lines over its 16 core lines, chosen to interact (bindings, shadowing, destructuring, type aliases incl. one named like a variable, closures over earlier bindings, previous-result flow, heap binaries and rebinding, imports incl. a compiler-rejected importing line, parse/compile-rejected lines, nil lines, a multi-step line whose middle step is nil, a module type first mentioned by a rejected line) plus every cut of 30 corpus programs into lines, a differential pass for top-level tail-call lines (361 pairs) and a restarted-session pass (a fresh Repl on a used Environment behaves like a fresh environment; 22743 session pairs): per-line value and every bound variable equal the one-piece program; a rejected line leaves the session unchanged (state, and line by line: every later line - accepted or rejected - behaves as in the history without the rejected lines); heap accounting holds after every line.",
                 note="One-piece comparison programs hoist type-definition lines (known parser finding); references compare as 'a reference'; functions up to table index."),
     "C02": dict(engine="enum", category="exploration", design="5.2, 5.3, 7/C02, Appendix A",
                 technique="bounded-exhaustive enumeration of core-language programs (all programs up to n nodes and all cores x contexts) differentially executed against an independent reference interpreter of docs/spec.md",
